@@ -212,12 +212,18 @@ def replay(case):
 
 # ---- V: long random streams ------------------------------------------------
 
+def _data(rng):
+    """A data byte; a quarter of them are line ends, blanks and letters (bytes that make a
+    chunk look like text)."""
+    return rng.choice([0x0a, 0x0a, 0x0d, 0x20, 0x41, 0x3a, 0x00, 0x7f]) if rng.random() < 0.25 else rng.randrange(128)
+
+
 def random_stream(rng, n):
     out = []
     while len(out) < n:
         k = rng.random()
         if k < 0.35:
-            out.append(rng.randrange(128))
+            out.append(_data(rng))
         elif k < 0.6:
             out.append(rng.randrange(128, 256))
         elif k < 0.75:
@@ -226,10 +232,10 @@ def random_stream(rng, n):
             # a well-formed message
             s = rng.choice([0x80, 0x90, 0xa5, 0xb0, 0xc1, 0xd2, 0xe3])
             out.append(s)
-            out.extend(rng.randrange(128) for _ in range(1 if 0xc0 <= s < 0xe0 else 2))
+            out.extend(_data(rng) for _ in range(1 if 0xc0 <= s < 0xe0 else 2))
         else:
             out.append(0xf0)
-            out.extend(rng.randrange(128) for _ in range(rng.randrange(6)))
+            out.extend(_data(rng) for _ in range(rng.randrange(12)))
             if rng.random() < 0.8:
                 out.append(0xf7)
     return out[:n]
@@ -244,7 +250,7 @@ def record_trace(rng, stream, use_queue=False):
     pos = 0
     n = len(stream)
     while pos < n:
-        k = rng.choice([1, 1, 2, 3, 7, 64, 500])
+        k = rng.choice([1, 1, 2, 2, 3, 3, 7, 64, 500])
         chunk = stream[pos:pos + k]
         pos += len(chunk)
         try:
